@@ -513,11 +513,21 @@ func run(p *hx.Plan) []hx.Event {
 					seeks = append(seeks, &msgpb.MsgPosition{ChannelName: pfake.ToP(v), MsgID: []byte("ckpt-" + pfake.ToP(v)), Timestamp: uint64(sts)})
 				}
 			}
+			if sts := hx.I(st, "seek_ts"); sts > 0 && len(seeks) == 0 {
+				for _, v := range c.SrcV {
+					seeks = append(seeks, &msgpb.MsgPosition{ChannelName: pfake.ToP(v), MsgID: []byte("ckpt-" + pfake.ToP(v)), Timestamp: uint64(sts)})
+				}
+			}
 			startTs := map[string]uint64{}
 			for _, h := range hx.SL(st, "hold") {
 				e.disp.Hold(h)
 			}
-			err := e.mgr.StartReadCollection(e.taskCtx(), &model.DatabaseInfo{ID: 1, Name: c.DB}, c.pbInfo(), seeks, startTs)
+			info := c.pbInfo()
+			if hx.B(st, "dropped") { // the source catalog meanwhile says "dropping" (the drop has been replayed, upstream GC has not run yet)
+				info = proto.Clone(info).(*pb.CollectionInfo)
+				info.State = pb.CollectionState_CollectionDropping
+			}
+			err := e.mgr.StartReadCollection(e.taskCtx(), &model.DatabaseInfo{ID: 1, Name: c.DB}, info, seeks, startTs)
 			ev["err"] = err != nil
 			sk := []hx.Event{}
 			for _, x := range seeks {
